@@ -342,30 +342,37 @@ func c15Run(r *tr.Run, cs c15Case) {
 	feed := func(on int, name string, wellformed bool, val any, payload []byte) bool {
 		seq++
 		id := fmt.Sprintf("r%d-m%d", r.ID, seq)
-		msg := message.NewMessage(id, payload)
-		if name != "" {
-			msg.Metadata.Set("name", name)
-		}
-		sent[id] = val
-		consumed[id] = msg
-		if seq%2 == 0 && prev != nil {
-			// the message travels with a context that was derived from the handling of another message
-			msg.SetContext(cqrs.CtxWithOriginalMessage(context.Background(), prev))
-		}
-		prev = msg
-		r.Emit("msg", "m", id, "name", name, "wellformed", wellformed, "on", on+1)
-		if !subs[on].Emit("t", msg) {
-			r.Emit("hung", "what", "emit")
-			return false
-		}
-		select {
-		case <-msg.Acked():
-			r.Emit("settled", "m", id, "kind", "ack")
-		case <-msg.Nacked():
-			r.Emit("settled", "m", id, "kind", "nack")
-		case <-time.After(HangBound):
-			r.Emit("hung", "what", "not settled")
-			return false
+		// a message that was Nacked comes again (same UUID, same content, a new delivery): it is dispatched like the first time
+		for delivery := 1; delivery <= 2; delivery++ {
+			msg := message.NewMessage(id, payload)
+			if name != "" {
+				msg.Metadata.Set("name", name)
+			}
+			sent[id] = val
+			consumed[id] = msg
+			if seq%2 == 0 && prev != nil {
+				// the message travels with a context that was derived from the handling of another message
+				msg.SetContext(cqrs.CtxWithOriginalMessage(context.Background(), prev))
+			}
+			r.Emit("msg", "m", id, "name", name, "wellformed", wellformed, "on", on+1)
+			if !subs[on].Emit("t", msg) {
+				r.Emit("hung", "what", "emit")
+				return false
+			}
+			select {
+			case <-msg.Acked():
+				r.Emit("settled", "m", id, "kind", "ack")
+				prev = msg
+				return true
+			case <-msg.Nacked():
+				r.Emit("settled", "m", id, "kind", "nack")
+			case <-time.After(HangBound):
+				r.Emit("hung", "what", "not settled")
+				return false
+			}
+			if delivery == 2 {
+				prev = msg
+			}
 		}
 		return true
 	}
@@ -427,10 +434,14 @@ func c15Run(r *tr.Run, cs c15Case) {
 			before := len(pub.Calls())
 			sendCtx := context.WithValue(context.Background(), c15CtxKey{}, which)
 			var e error
+			var sendV any = v
+			if a, ok := v.(*C15A); ok && which >= 4 {
+				sendV = &a // a generic helper took the address of what was a pointer already: still a C15A (JSON encodes it alike)
+			}
 			if which%2 == 0 {
-				e = cb.Send(sendCtx, v)
+				e = cb.Send(sendCtx, sendV)
 			} else {
-				e = eb.Publish(sendCtx, v)
+				e = eb.Publish(sendCtx, sendV)
 			}
 			calls := pub.Calls()[before:]
 			topic, name, round, marked, ctxok := "", "", false, false, false
